@@ -23,6 +23,11 @@ theorem follow_held {net : Addr → Option ProxyState} {s : Nat} {a : Addr} {p :
     follow net s fuel a = (0, .held a n) := by
   cases fuel <;> (unfold follow; simp only [hn, hr])
 
+theorem follow_stuck {net : Addr → Option ProxyState} {s : Nat} {a : Addr} {p : ProxyState} {o : Route.Outcome}
+    (hn : net a = some p) (hr : routeWithMigration p none (some s) = .other o) (fuel : Nat) :
+    follow net s fuel a = (0, .stuck a o) := by
+  cases fuel <;> (unfold follow; simp only [hn, hr])
+
 theorem follow_moved {net : Addr → Option ProxyState} {s s' : Nat} {a b : Addr} {p : ProxyState}
     (hn : net a = some p) (hr : routeWithMigration p none (some s) = .moved s' b) (fuel : Nat) :
     follow net s (fuel + 1) a = ((follow net s fuel b).1 + 1, (follow net s fuel b).2) := by
